@@ -5,7 +5,7 @@ from trees import *
 from polys import *
 
 
-def gen_configurator(rng, quick=True, int_leaf=False, nested=True, top_items=False, nest_p=0.3):
+def gen_configurator(rng, quick=True, int_leaf=False, nested=True, top_items=False, nest_p=0.3, fix_root_p=0.0):
     """AST of a StingyConfigurator over boolean items (optionally one integer item `t`)"""
     items = list("abcdefgh")[:rng.randint(3, 5 if quick else 7)]
     # item ids come in several shapes; some look like generated ids ("VAR…"), some contain blanks / dashes / non-ASCII
@@ -14,6 +14,11 @@ def gen_configurator(rng, quick=True, int_leaf=False, nested=True, top_items=Fal
         items = [rng.choice(["VAR-", "VARIANT_", "VAR"]) + x for x in items]
     elif style < 0.3:
         items = [rng.choice(["", "x ", "Ω", "item-"]) + x for x in items]
+    elif style < 0.48:
+        # ids that contain one another / sort differently as numbers and as strings
+        pool = rng.choice([["1", "10", "11", "2", "21", "100", "110"], ["S", "L", "XL", "XXL", "XXXL", "XS", "XXS"],
+                           ["A", "A1", "A12", "AA", "A123", "AB", "1A"]])
+        items = rng.sample(pool, len(items))
     k = [0]
     def rid():
         k[0] += 1
@@ -40,7 +45,10 @@ def gen_configurator(rng, quick=True, int_leaf=False, nested=True, top_items=Fal
                 args.append(rule(depth - 1, ("ccAnyD", "ccXorD")) if rng.random() < 0.5 else rule(depth - 1))
             a.update(c=kind[:5], args=args)
             if kind.endswith("D"):
-                a["default"] = [rng.choice([x["id"] for x in args if x["c"] in ("str", "var")])]
+                cands = [x["id"] for x in args if x["c"] in ("str", "var")]
+                containing = [d for d in cands if any(o != d and o in d for o in cands)]
+                # (when ids contain one another, mostly the longer one is the default)
+                a["default"] = [rng.choice(containing) if containing and rng.random() < 0.7 else rng.choice(cands)]
         elif kind == "AtMost":
             a.update(c="AtMost", v=rng.randint(1, 2), args=group(rng.randint(2, 3)))
         elif kind in ("All", "Any", "Xor", "ExactlyOne", "XNor"):
@@ -78,6 +86,8 @@ def gen_configurator(rng, quick=True, int_leaf=False, nested=True, top_items=Fal
             else: rules.append({"c": "var", "id": i, "lo": 0, "hi": rng.randint(2, 3)})
     cfg = {"c": "Stingy", "args": rules}
     if rng.random() < 0.8: cfg["id"] = "cfg"
+    if fix_root_p and "id" in cfg and rng.random() < fix_root_p:
+        cfg["$fix"] = rng.choice([1, 1, 0])        # the configurator's own variable given as variable(id, (c, c))
     return cfg
 
 
@@ -95,7 +105,7 @@ def valid_configurator(rng, quick=True, **kw):
                 prios.setdefault(n["id"], set()).add(n.get("prio"))
         if any(len(v) > 1 for v in prios.values()):
             continue        # a generated id shared by a prio-tagged and an untagged node: which tag flatten() keeps is arbitrary
-        if well_formed(t) and not o.errors() and free01(t):
+        if well_formed(t) and not o.errors() and (free01(t) or (kw.get("fix_root_p") and a.get("$fix") is not None)):
             return a, o, t
     raise RuntimeError("no valid configurator generated")
 
